@@ -45,7 +45,7 @@ BadFieldsCp(e) ==
   LET W == World(e)  c == e.lo  o == e.obs  sg == SigRec(e)
       a == 97  A == 65  R == 1488  AN == 1633 IN
   {f \in {"id", "idc", "ff", "ffc", "reg", "regdom", "vir", "greek", "hebrew", "kana", "ld", "rd", "mdl", "mdr", "aidx", "eaidx", "own",
-          "wm1", "wm2", "wm3", "wm4", "osp2", "nsp2", "osp3", "nsp3", "lc1", "lc2", "lc3", "osp", "nsp", "bidi1", "bidi2", "bidi3", "bidi4", "bidi5",
+          "wm1", "wm2", "wm3", "wm4", "wm5", "osp2", "nsp2", "osp3", "nsp3", "osp4", "lc1", "lc2", "lc3", "osp", "nsp", "bidi1", "bidi2", "bidi3", "bidi4", "bidi5",
           "sigexc", "sigascii"} :
      CASE f = "id"  -> o.id  # Derived(sg, "Id")
        [] f = "idc" -> o.idc # Derived(sg, "Id")
@@ -70,6 +70,8 @@ BadFieldsCp(e) ==
        [] f = "wm4" -> ObsStr(e, o.wm[4]) # Ok(WidthMap(W, <<65313, c>>))
        [] f = "osp2" -> ObsStr(e, o.osp2) # Ok(PwSpaces(W, <<160, c, a>>))
        [] f = "nsp2" -> ObsStr(e, o.nsp2) # Ok(NickSpaces(W, <<a, 160, c, a>>))
+       [] f = "wm5" -> ObsStr(e, o.wm[5]) # Ok(WidthMap(W, <<c, 65313>>))
+       [] f = "osp4" -> ObsStr(e, o.osp4) # Ok(PwSpaces(W, <<c, 160>>))
        [] f = "osp3" -> ObsStr(e, o.osp3) # Ok(PwSpaces(W, <<160, a, c>>))
        [] f = "nsp3" -> ObsStr(e, o.nsp3) # Ok(NickSpaces(W, <<32, a, c>>))
        [] f = "lc1" -> ObsStr(e, o.lc[1]) # Ok(CaseMap(W, <<c>>))
